@@ -108,7 +108,7 @@ def rwBin (F : FloatOps R) (q : Quirks) (lt gt : List Ty) (op : BinOp) (a b : Ex
   | .lit x, .lit y =>
     -- `0 + X` is tested before the constant case
     if op == .add && isZeroLit a && (ty b == .int || (ty b == .real && q.foldAddZeroReal)) then b
-    else if op == .sub && isZeroLit a && (q.zeroMinusNeg || ty b != .real) then
+    else if op == .sub && isZeroLit a && (q.zeroMinusNeg || ty b == .int) then
       (match foldUn F .neg y with | some v => .lit v | none => .un .neg b)
     else match foldBin F op x y with
       | some v => .lit v
@@ -124,7 +124,7 @@ def rwBin (F : FloatOps R) (q : Quirks) (lt gt : List Ty) (op : BinOp) (a b : Ex
               && ty b != .str && ty b != .mixed then .bin .add b a          -- swap: constant to the right
       else if isZeroLit b && !(isLit a) && (ty a == .int || (ty a == .real && q.foldAddZeroReal)) then a
       else dflt
-    | .sub => if isZeroLit a && (q.zeroMinusNeg || (ty b != .real && ty b != .mixed)) then .un .neg b else dflt
+    | .sub => if isZeroLit a && (q.zeroMinusNeg || ty b == .int) then .un .neg b else dflt
     | .mul =>
       if (match a with | .lit (.int _) | .lit (.real _) => true | _ => false) then .bin .mul b a else dflt
     | .band | .bor | .bxor =>
@@ -146,10 +146,10 @@ def rwCond (c a b : Expr R) : Expr R :=
   | .un .not x => .cond x b a
   | _ => .cond c a b
 
-/-- `x[i..<k]` with a constant k <= 1 is compiled as `x[i..]` -/
-def rwRng (fr tr : Bool) (a i j : Expr R) : Expr R :=
+/-- `x[i..<1]` is compiled as `x[i..]` (before the fix fa775d5: every constant k <= 1) -/
+def rwRng (q : Quirks) (fr tr : Bool) (a i j : Expr R) : Expr R :=
   match tr, j with
-  | true, .lit (.int k) => if k ≤ 1 then .rnge fr a i else .rng fr tr a i j
+  | true, .lit (.int k) => if k = 1 ∨ (q.lvRangeConstRev = true ∧ k ≤ 1) then .rnge fr a i else .rng fr tr a i j
   | _, _ => .rng fr tr a i j
 
 /-- `({ e0, e1, .. })[const]` is replaced by the element -/
@@ -203,7 +203,7 @@ mutual
       | .inc k lv => .inc k (rwLV F q lt gt n lv)
       | .idx a i => rwIdx (rwE F q lt gt n a) (rwE F q lt gt n i)
       | .ridx a i => .ridx (rwE F q lt gt n a) (rwE F q lt gt n i)
-      | .rng fr tr a i j => rwRng fr tr (rwE F q lt gt n a) (rwE F q lt gt n i) (rwE F q lt gt n j)
+      | .rng fr tr a i j => rwRng q fr tr (rwE F q lt gt n a) (rwE F q lt gt n i) (rwE F q lt gt n j)
       | .rnge fr a i => .rnge fr (rwE F q lt gt n a) (rwE F q lt gt n i)
       | .arr es => .arr (rwL F q lt gt n es)
       | .map kvs => .map (rwP F q lt gt n kvs)
